@@ -14,6 +14,7 @@
 ;;   (load id libname)                (environment 'libname): OK or (ERR message)  -- module table state machine
 ;;   (resolve id datum)               (%resolve-import datum)  -- function-level tie to the translated code
 ;;   (drop id a b) (append id a b)    symbol-drop / symbol-append
+;;   (condexp id (clause ...))        (cond-expand clause ...) evaluated in (environment '(scheme base)) -- tie to Gen/C14_CondExpand.v
 ;;   (env id (iset ...) (name ...) KIND file)   round 3: the import is done by another kind of importer into the driver's own top-level
 ;;                                    environment (the import sets carry a prefix unique to the case): KIND = interaction
 ;;                                    (eval '(import ...) (interaction-environment)), load-file / load-port ((load x env) of a text whose
@@ -130,6 +131,8 @@
     ((include) (eval (list 'include file) c14-top) c14-top)
     (else (error "unknown importer kind" kind))))
 
+(define c14-ce-env (environment '(scheme base)))
+
 (define c14-support
   '(prefix (only (scheme base) cond case guard raise quote quasiquote list car let-syntax syntax-rules) c14:))
 
@@ -165,6 +168,8 @@
                      'OK)))
       ((resolve)
        (c14-out id (guard (e (#t (list 'ERR (c14-msg e)))) (list 'OK (%resolve-import (car (cddr form)))))))
+      ((condexp)   ; (condexp id (clause ...)): the value of (cond-expand clause ...) -- bodies are quoted symbols; well-formed input only
+       (c14-out id (guard (e (#t (list 'ERR (c14-msg e)))) (list 'OK (eval (cons 'cond-expand (car (cddr form))) c14-ce-env)))))
       ((drop)
        (c14-out id (guard (e (#t (list 'ERR (c14-msg e)))) (list 'OK (symbol-drop (car (cddr form)) (cadr (cddr form)))))))
       ((append)
